@@ -144,7 +144,7 @@ pub fn check_view(what: &str, v: &DnaStringSlice, m: &[u8], is_rc: bool, salt: u
     Ok(())
 }
 
-fn check_views(c: &VCase) -> CheckResult {
+pub fn check_views(c: &VCase) -> CheckResult {
     let b = &c.backing;
     let n = b.len();
     // origin
@@ -264,7 +264,7 @@ fn dcase(env: &Env) -> BoxedStrategy<DCase> {
         .boxed()
 }
 
-fn check_dist(c: &DCase) -> CheckResult {
+pub fn check_dist(c: &DCase) -> CheckResult {
     let n = c.len as usize;
     let mut st = c.seed;
     let mut a: Seq = Vec::with_capacity(n);
@@ -329,6 +329,7 @@ fn check_dist(c: &DCase) -> CheckResult {
         .label(npos > 0 && want == 0, "edits_cancelled"))
 }
 
+#[cfg(not(fuzzing))]
 pub fn jobs(_env: &Env) -> Vec<Box<dyn Job>> {
     let mut out: Vec<Box<dyn Job>> = Vec::new();
     for i in 0..10 {
